@@ -245,6 +245,25 @@ def build_cases(tier):
                         if vtags and (oi > 0 or not ops_first):
                             continue
                         cases.append(dict(family="graph", doc_text=text, tags=set(g["tags"]) | vtags | {f"order:{oi}", "ops_first" if ops_first else "ops_last"}))
+    # spread ORDER: two fragments (and the operation) spread ordered subsets of the same two leaf fragments, in every combination of orders
+    # (the base classes of every generated class must admit one consistent linearisation whatever the authors' spread orders were)
+    leafs = {"3": "fragment F3 on User { name }", "4": "fragment F4 on User { kind }"}
+    ordered_subsets = [(), ("3",), ("4",), ("3", "4"), ("4", "3")]
+    for s1 in ordered_subsets:
+        for s2 in ordered_subsets:
+            if len(s1) + len(s2) < 3:
+                continue
+            f1 = "fragment F1 on User { id " + " ".join(f"...F{x}" for x in s1) + " }"
+            f2 = "fragment F2 on User { age " + " ".join(f"...F{x}" for x in s2) + " }"
+            for root in ("...F1 ...F2", "...F2 ...F1", "...F1 ...F2 ...F3", "...F4 ...F2 ...F1", "...F1 friend { ...F2 }"):
+                for ren, vtag in (({}, "names_ascending"), ({"1": "Zd", "2": "Zc", "3": "Zb", "4": "Za"}, "names_reverse_alphabetical"), ({"1": "Mb", "2": "Ma", "3": "Zz", "4": "Aa"}, "names_mixed")):
+                    if tier == "quick" and vtag == "names_mixed" and (len(cases) + seed()) % 2:
+                        continue
+                    text = "\n".join(["query SpreadOrder { user { " + root + " } }", f1, f2, leafs["3"], leafs["4"]]) + "\n"
+                    import re as _re
+                    text = _re.sub(r"\bF([1-4])\b", lambda m: ren.get(m.group(1), "F" + m.group(1)), text)
+                    cases.append(dict(family="graph", doc_text=text, tags={"spread_orders", f"orders:{''.join(s1) or '-'}/{''.join(s2) or '-'}", vtag, "frags:4", "direct_spread", "ftype:User",
+                                                                              "opposite_spread_orders" if (s1, s2) in ((("3", "4"), ("4", "3")), (("4", "3"), ("3", "4"))) else "compatible_spread_orders"}))
     # one fragment used both ways
     shared = [
         ("FNode_same_and_subtype", "fragment F on Node { id }", ["query One { user { ...F } }", "query Two { node { ...F } }"]),
